@@ -438,6 +438,29 @@ func c18DumpSequencers(f *Fix, ctx sdk.Context, out map[string]string) {
 		}
 		return c18Join(xs, true)
 	})
+	// the dymint-address index (SetSequencerByDymintAddr: written with the sequencer at creation, rebuilt by
+	// InitGenesis from MustProposerAddr of every exported sequencer): every sequencer is found under the
+	// address of its own dymint key
+	c18Guard(out, "sequencer.byDymintAddr", func() string {
+		var xs []string
+		for _, s := range k.AllSequencers(ctx) {
+			if s.Sentinel() {
+				continue
+			}
+			pa, err := s.ProposerAddr()
+			if err != nil {
+				xs = append(xs, s.Address+"=NOKEY")
+				continue
+			}
+			got, err := k.SequencerByDymintAddr(ctx, pa)
+			if err != nil {
+				xs = append(xs, fmt.Sprintf("%s=%x->ERR", s.Address, pa))
+				continue
+			}
+			xs = append(xs, fmt.Sprintf("%s=%x->%s", s.Address, pa, got.Address))
+		}
+		return c18Join(xs, true)
+	})
 	c18Guard(out, "sequencer.records", func() string {
 		var xs []string
 		for _, s := range k.AllSequencers(ctx) {
